@@ -417,7 +417,16 @@ func (rc *ruleCtx) context() {
 			}
 		}
 	})
-	rc.s.Check(nW == 1 && okDef, "V4", rc.key("ctx := <directive's context argument>, once"), "", "", "the directive's ctx variable is not defined exactly once from the hoisted context argument")
+	if x.In.Kind == "modflow" {
+		// modifier mode: ctx is the first parameter of the generated function
+		isParam := false
+		if ps := x.W.Type.Params; ps != nil && len(ps.List) > 0 && len(ps.List[0].Names) == 1 {
+			isParam = info.Defs[ps.List[0].Names[0]] == x.CtxObj
+		}
+		rc.s.Check(nW == 0 && isParam, "V4", rc.key("ctx is the generated function's first parameter, never reassigned"), "", "", "the modifier-mode flow function does not use its ctx parameter unchanged")
+	} else {
+		rc.s.Check(nW == 1 && okDef, "V4", rc.key("ctx := <directive's context argument>, once"), "", "", "the directive's ctx variable is not defined exactly once from the hoisted context argument")
+	}
 	for _, j := range x.Jobs {
 		rc.s.Check(len(j.Enq.Args) == 2 && astx.IdentObj(info, j.Enq.Args[0]) == x.CtxObj, "V4", rc.key("Enqueue of "+rc.jobName(j)+" gets the directive ctx"), rc.pos(j.Enq), "", "Enqueue is not given the directive's context: cancellation would not stop this job")
 		if j.Lit == nil || len(j.Calls) != 1 {
